@@ -449,6 +449,15 @@ fn classify(v: Option<&str>) -> (u8, Option<(String, String, u16)>) {
     if !s.contains(':') || s.starts_with(':') {
         return (K_INVALID, None); // no scheme: not an absolute URL, unparsable
     }
+    if !s.contains("://") {
+        // `http-proxy.test:3128`: what stands before the colon is a scheme that merely begins with
+        // http (or nothing a URL can begin with): not an http(s) URL either way
+        let before = &s[..s.find(':').unwrap()];
+        let lower = before.to_ascii_lowercase();
+        if lower != "http" && lower != "https" && before.bytes().all(|b| b.is_ascii_alphanumeric() || b == b'-' || b == b'.' || b == b'+') {
+            return (K_INVALID, None);
+        }
+    }
     if let Some(i) = s.find("://") {
         let scheme = &s[..i];
         let rest = &s[i + 3..];
@@ -642,14 +651,16 @@ fn proxy_value(var: usize, kind: &str) -> Option<String> {
         "garbage" => Some("not a url".to_string()),
         // a bare host name, no scheme: not a URL, never a proxy
         "barehost" => Some(format!("p{var}b.test")),
+        // host:port whose host begins with http: the "scheme" is http-p0.test, not http
+        "httpish" => Some(format!("http-p{var}.test:3128")),
         _ => unreachable!(),
     }
 }
 
 fn proxy_kinds(tier: Tier) -> Vec<&'static str> {
-    // the same eight kinds in both tiers; the tiers differ in the NO_PROXY menu
+    // the same nine kinds in both tiers; the tiers differ in the NO_PROXY menu
     let _ = tier;
-    vec!["unset", "empty", "blank", "http", "https", "socks", "garbage", "barehost"]
+    vec!["unset", "empty", "blank", "http", "https", "socks", "garbage", "barehost", "httpish"]
 }
 
 fn np_menu(tier: Tier) -> Vec<Option<String>> {
